@@ -1,6 +1,7 @@
 package main
 
 import (
+	"fmt"
 	"time"
 
 	"pgregory.net/rapid"
@@ -40,5 +41,73 @@ func c03Main(e *Env) (*res.Result, error) {
 		n = 640
 	}
 	specs := routerSpecs(e, "C03", n, false)
-	return compiledMain(e, "C03", specs, false, 20*time.Minute)
+	if !e.Quick() {
+		specs = append(specs, exhaustiveTemplateSets()...)
+	}
+	r, err := compiledMain(e, "C03", specs, false, 30*time.Minute)
+	if r != nil && !e.Quick() {
+		r.Extra["exhaustive"] = true
+		r.Extra["exhaustive_note"] = "thorough tier: ALL sets of one or two non-equivalent templates of depth <=3 over {a, b, {v}, empty last segment} (52 templates, 1378 sets; GET on the first, GET+POST on the second; base path none or /v1 alternating) were generated and served with the full request enumeration; the rapid-drawn larger sets are sampled"
+	}
+	return r, err
+}
+
+// exhaustiveTemplateSets enumerates every set of one or two non-equivalent templates
+// of depth <= 3 over {a, b, {v}, empty last segment}.
+func exhaustiveTemplateSets() []PkgSpec {
+	var tpls []specgen.Template
+	var rec func(prefix specgen.Template, depth int)
+	rec = func(prefix specgen.Template, depth int) {
+		for _, seg := range []string{"a", "b", "{}", ""} {
+			tp := append(append(specgen.Template{}, prefix...), seg)
+			tpls = append(tpls, tp)
+			if seg != "" && depth < 3 {
+				rec(tp, depth+1)
+			}
+		}
+	}
+	rec(nil, 1)
+	mk := func(tp specgen.Template, methods []string, tag string) (string, *specgen.PathItem) {
+		pi := &specgen.PathItem{}
+		named := append(specgen.Template{}, tp...)
+		for i, s := range named {
+			if s == "{}" {
+				name := fmt.Sprintf("v%s%d", tag, i)
+				named[i] = "{" + name + "}"
+				pi.Parameters = append(pi.Parameters, &specgen.Parameter{Name: name, In: "path", Required: true, Schema: &specgen.Schema{Type: "string"}})
+			}
+		}
+		for _, m := range methods {
+			pi.SetOp(m, specgen.MinimalOp())
+		}
+		return named.String(), pi
+	}
+	var out []PkgSpec
+	add := func(set []specgen.Template) {
+		d := specgen.NewDoc()
+		for i, tp := range set {
+			methods := []string{"GET"}
+			if i == 1 {
+				methods = []string{"GET", "POST"}
+			}
+			path, pi := mk(tp, methods, string(rune('x'+i)))
+			d.Paths[path] = pi
+		}
+		cfg := inproc.Config{DoNotEdit: true}
+		form := "none"
+		if len(out)%2 == 1 {
+			d.Servers = []*specgen.Server{{URL: "/v1"}}
+			form = "rel-path"
+		}
+		out = append(out, PkgSpec{Name: fmt.Sprintf("pc03x%04d", len(out)), Doc: d, Cfg: cfg, Meta: map[string]any{"baseform": form, "exhaustive": true}})
+	}
+	for i := range tpls {
+		add([]specgen.Template{tpls[i]})
+		for j := i + 1; j < len(tpls); j++ {
+			if tpls[i].Class() != tpls[j].Class() {
+				add([]specgen.Template{tpls[i], tpls[j]})
+			}
+		}
+	}
+	return out
 }
